@@ -1,0 +1,10 @@
+//go:build verif
+
+// Machine-checked contracts for this package (comment-only; compiled only under the
+// build tag `verif`, where it still contains no code). Checked by /verif/govc.
+package keeper
+
+// The membership tier is computed from stored portfolio values: a read.
+//@ func (Keeper).GetMembershipTier
+//@ modifies nothing
+//@ frame-only
